@@ -187,7 +187,7 @@ for k in ("manifest", "list"):
                   functions=[f"{cp.FMOD}:FileManager.create_manifest_file" if k == "manifest" else f"{cp.FMOD}:FileManager.create_manifest_list_file"], replay=_replay_crash))
 register(Unit(P, "NO-CLOBBER/append_data", cp.h_append_data, functions=[f"{cp.TX}:Transaction.append_data"], replay=_replay_crash))
 register(Unit(P, "POST-CP/_finish_committed", cp.h_finish_committed, functions=[f"{cp.TX}:Transaction._finish_committed"], replay=_replay_crash))
-_re("GC-PREFIX", units_of("C05"), lambda n: n.startswith(("GC-PREFIX", "COLLECT")))
+_re("GC-PREFIX", units_of("C05"), lambda n: n.startswith(("GC-PREFIX", "COLLECT", "MARKERS")))
 for u in list(units_of("C05")):
     pass
 _re("RECOVER", units_of("C10"), lambda n: n.startswith(("RESOLVE", "RECOVER", "PARSE-TOTAL")))
